@@ -71,7 +71,9 @@ def check_case(ctx, case):
     vdown, vup = case["vector"]
     mods = [tuple(m) for m in case["mods"]]
     v = EntSpec(0, V, CRec(0, P["vecs"][(vdown, vup)], [], []), False)
-    ents = [EntSpec(i, M, CRec(i, P["mods"][(s, e)], [], []), False) for (s, e, i) in mods]
+    lower = set(case.get("lower", []))
+    ents = [EntSpec(i, M, CRec(i, P["mods"][(s, e)].lower() if i in lower else P["mods"][(s, e)], [], []), False)
+            for (s, e, i) in mods]
     op = ("ASM", 1, 1, v, ents)
     reply, prod, _ = impl.run_asm(op)
     f = reply.split("\t")
@@ -131,4 +133,13 @@ def run(ctx):
         if rng.random() < 0.1:
             mods.append(list(rng.choice(mods)))        # the same object twice
         rng.shuffle(mods)
-        check_case(ctx, {"vector": list(vec), "mods": mods, "asm_corr": rng.random() < 0.2})
+        lower = [m[2] for m in mods if rng.random() < 0.3] if rng.random() < 0.5 else []
+        check_case(ctx, {"vector": list(vec), "mods": mods, "asm_corr": rng.random() < 0.2, "lower": lower})
+    # reverse-complementary / equal start overhangs spelt in different cases, in every argument order
+    for _ in range(ctx.budget(150, 3000)):
+        vec = rng.choice([v for v in VECTORS if v[0] != v[1]])
+        a = rng.choice(OVS)
+        b = rng.choice([gen.rc(a) if gen.rc(a) in OVS else a, a, rng.choice(OVS)])
+        mods = [[a, rng.choice(OVS), 1], [b, rng.choice(OVS), 2], [vec[0], vec[1], 3]]
+        for perm in itertools.permutations(mods):
+            check_case(ctx, {"vector": list(vec), "mods": [list(m) for m in perm], "lower": [rng.choice([1, 2])]})
